@@ -179,6 +179,7 @@ type engEnv struct {
 	hung                 bool            // a check did not return: the stream stops after the current case
 	budget               int64           // storage-call budget of the next runs (0: callBudget)
 	noplcase             int
+	prevOPL              string // the previously accepted OPL document
 	inPlaceActive        bool // the configuration points at the in-place file
 	inPlaceStrict        bool
 	ctxB                 context.Context
@@ -310,6 +311,18 @@ func (e *engEnv) prepare(c *EngCase, o *Out) error {
 			// through a new location (a new manager)
 			e.noplcase++
 			if e.noplcase%2 == 0 {
+				// first the previously accepted document, in place, and one lookup per namespace
+				// (whatever the read path remembers about a configuration is now warm) …
+				if e.prevOPL != "" && e.prevOPL != text {
+					if pp, perrs := schema.Parse(e.prevOPL); len(perrs) == 0 {
+						if ok, err := e.loadInPlace(e.prevOPL, c.Strict, pp); err != nil {
+							return err
+						} else if ok {
+							e.warmLookups(pp)
+						}
+					}
+				}
+				// … then this case's document into the same file
 				ok, err := e.loadInPlace(text, c.Strict, parsed)
 				if err != nil {
 					return err
@@ -319,6 +332,7 @@ func (e *engEnv) prepare(c *EngCase, o *Out) error {
 					o.Count("cfg:opl-in-place")
 				}
 			}
+			e.prevOPL = text
 			if c.Strict && !inPlace {
 				e.nfile++
 				f := filepath.Join(e.tmpDir, fmt.Sprintf("ns%d.ts", e.nfile))
@@ -551,6 +565,33 @@ func (e *engEnv) poisonedRuns(c *EngCase, r interface{ Intn(int) int }) string {
 		return ""
 	}
 	return "\tx_base=" + base + "\tx_poison=" + strings.Join(out, ",")
+}
+
+// warmLookups asks the engine about one relation (and an undeclared one) of every namespace.
+func (e *engEnv) warmLookups(nss []namespace.Namespace) {
+	if e.eng == nil {
+		var zero int64
+		deps := &faultDeps{RegistryDefault: e.reg, calls: &zero}
+		if e.other != nil {
+			deps.baseMgr, deps.baseTrav = e.other, ksql.NewTraverser(e.other)
+		}
+		e.eng = check.NewEngine(deps)
+	}
+	var n int64
+	ctx := context.WithValue(e.ctx, runStateKey{}, &runState{calls: &n})
+	for i := range nss {
+		rels := []string{"verif-undeclared"}
+		for _, r := range nss[i].Relations {
+			rels = append(rels, r.Name)
+		}
+		for _, rel := range rels {
+			func() {
+				defer func() { _ = recover() }()
+				e.eng.CheckRelationTuple(ctx, &relationtuple.RelationTuple{Namespace: nss[i].Name, Object: objUUID(0), Relation: rel,
+					Subject: &relationtuple.SubjectID{ID: subUUID(0)}}, 2)
+			}()
+		}
+	}
 }
 
 // loadInPlace replaces the content of the environment's one watched OPL file and waits until the
